@@ -153,7 +153,22 @@ def r_blocks(repo, tier):
     # hand-over before reset
     cfg = CFG(fn, may_raise=lambda x: False)
     resets = [nd for nd in cfg.nodes if nd.kind == "stmt" and isinstance(nd.ast, ast.Assign) and any(isinstance(t, ast.Name) and t.id == acc for t in nd.ast.targets) and isinstance(nd.ast.value, ast.List) and not nd.ast.value.elts]
-    builds = [nd for nd in cfg.nodes if nd.kind == "stmt" and isinstance(nd.ast, ast.Assign) and isinstance(nd.ast.value, ast.Call) and any(isinstance(a, ast.Name) and a.id == acc for a in nd.ast.value.args)]
+    def _uses_acc(call):
+        return isinstance(call, ast.Call) and any(isinstance(a, ast.Name) and a.id == acc for a in call.args)
+
+    # a block is "built" by any call that takes the accumulator (code.block(l), or a helper such as self._newblock(l)),
+    # either assigned to a name that is yielded later, or yielded directly
+    builds = []
+    direct = set()
+    for nd in cfg.nodes:
+        s0 = nd.ast
+        if nd.kind != "stmt" or s0 is None:
+            continue
+        if isinstance(s0, ast.Assign) and _uses_acc(s0.value):
+            builds.append(nd)
+        elif isinstance(s0, ast.Expr) and isinstance(s0.value, ast.Yield) and _uses_acc(s0.value.value):
+            builds.append(nd)
+            direct.add(nd.id)
     yields = {}
     for nd in cfg.nodes:
         if nd.kind == "stmt" and isinstance(nd.ast, ast.Expr) and isinstance(nd.ast.value, ast.Yield) and isinstance(nd.ast.value.value, ast.Name):
@@ -169,6 +184,9 @@ def r_blocks(repo, tier):
         if not ok:
             out.report(LSWEEP, f.dqual, "reset %s without hand-over" % norm(r.ast), r.line, "the accumulator is emptied on a path where no block was built from it: the instructions collected so far are lost")
     for b in builds:
+        if b.id in direct:
+            out.inst(f.key + "::build@%d" % b.line, {"build": norm(b.ast), "yielded_on_all_paths": True})
+            continue
         bv = b.ast.targets[0].id if isinstance(b.ast.targets[0], ast.Name) else None
         ys = yields.get(bv, set())
         # from the build, every path to the loop head / exit passes a yield of the block
@@ -261,9 +279,9 @@ def r_merge(repo, tier):
             if nd.kind == "stmt" and isinstance(s, ast.Assign) and isinstance(s.targets[0], ast.Subscript) and norm(s.targets[0].value) == acc and loop.lineno <= s.lineno <= (loop.end_lineno or s.lineno):
                 deps = _deps(cfg, fn, nd, s.value, loop, depth=0)
                 own_ok = bool(deps & xv - {norm(loop.target.elts[0]) if isinstance(loop.target, ast.Tuple) else ""})
-                other_ok = any(("%s[" % o) in d or ("%s(" % o) in d for d in deps for o in other) or any(d.startswith("top(") for d in deps)
+                other_ok = any(o in deps for o in other) or any(d.startswith("top(") for d in deps)
                 ownval = [e.id for e in loop.target.elts[1:]] if isinstance(loop.target, ast.Tuple) else []
-                own_ok = any(v in deps for v in ownval)
+                own_ok = any(v in deps for v in ownval) or norm(s.value).startswith("top(")  # top is absorbing: it covers every alternative
                 out.inst("%s::store%d" % (f.key, k + 1), {"store": norm(s), "depends_on": sorted(deps)[:12], "own_value": own_ok, "other_map_value": other_ok})
                 if not own_ok:
                     out.report(MAPPER, f.dqual, "merged value ignores %s's own value" % own, s.lineno, "the value stored for a location of %s does not depend on that map's value %s" % (own, ownval))
